@@ -6,6 +6,9 @@ of the model for that case (or `bad-op` when the line is outside the modelled do
 -/
 import OpfVerif.Model.Heap
 import OpfVerif.Model.Forest
+import OpfVerif.Model.Expr
+import OpfVerif.Gen.Distance
+import OpfVerif.Gen.Decorator
 open Opf
 
 structure Rd where
@@ -106,6 +109,22 @@ def runFit : RM String := do
   let ls := " ".intercalate (labs.map fun o => match o with | none => "-1" | some x => toString x)
   return s!"{forestObs s.f} | {if s.h.isEmpty then 1 else 0} | {ls} | {showBools f2.relevant}"
 
+/-- `dist <function index in Gen.functions> n xbits[n] ybits[n]` : binary64 value of the generated
+term (with the decorator's shift applied when the function is decorated), as a bit pattern. -/
+def runDist : RM String := do
+  let k ← nextN
+  let n ← nextN
+  let xs := (← nextIs n).map fun b => Float.ofBits b.toNat.toUInt64
+  let ys := (← nextIs n).map fun b => Float.ofBits b.toNat.toUInt64
+  match Gen.functions[k]? , Gen.bodies[k]? with
+  | some (_, dec, _), some (_, body) =>
+    let eps := litF Gen.decoratorEps.1 Gen.decoratorEps.2
+    let shift (a : Array Float) (i : Nat) : Array Float :=
+      if dec ∧ Gen.decoratorShifts.any (fun s => s.1 == i) then a.map (· + eps) else a
+    let v := body.evalF (shift xs 0) (shift ys 1)
+    return s!"{v.toBits.toNat}"
+  | _, _ => return "bad-op"
+
 def dispatch (line : String) : String :=
   match (line.splitOn " ").filter (· ≠ "") with
   | [] => "bad-op"
@@ -116,6 +135,7 @@ def dispatch (line : String) : String :=
     | "heap" => run runHeap
     | "prim" => run runPrim
     | "fit" => run runFit
+    | "dist" => run runDist
     | _ => "bad-op"
 
 partial def loop (h : IO.FS.Stream) (out : IO.FS.Stream) : IO Unit := do
